@@ -214,6 +214,7 @@ func Run(ctx context.Context, stmt ast.Stmt, setup Setup) (obs Obs, id int64) {
 		return nil
 	})
 	e.Define("pp", func(x interface{}) interface{} { add(x); panic("host function panics") })
+	e.Define("pt", func(a int64, b interface{}, c int64) interface{} { add([]interface{}{a, b, c}); return nil }) // typed parameters: arguments are converted
 	e.Define("pa", func(ptr interface{}) interface{} { add(int64(77)); return nil })
 	e.Define("ch", func(xs []interface{}) interface{} { // a closed, buffered channel holding the elements of a list
 		c := make(chan interface{}, len(xs)+1)
@@ -258,7 +259,7 @@ func Run(ctx context.Context, stmt ast.Stmt, setup Setup) (obs Obs, id int64) {
 	obs.Log = log
 	mu.Unlock()
 	for _, s := range e.GetValueSymbols() {
-		if s == "p" || s == "pv" || s == "pn" || s == "pa" || s == "pp" || s == "ch" || s == "pe" || s == "harr" || s == "hnm" || s == "hnl" {
+		if s == "p" || s == "pv" || s == "pn" || s == "pa" || s == "pp" || s == "ch" || s == "pe" || s == "pt" || s == "harr" || s == "hnm" || s == "hnl" {
 			continue
 		}
 		v, gerr := e.Get(s)
